@@ -256,6 +256,27 @@ func vDial(addr string) (net.Conn, error) {
 	return nil, err
 }
 
+// vDialUDP: a connected UDP socket on a local port this process has never used before.  The server keys its
+// associations by client address: a recycled ephemeral port would hit the association (and key) of an earlier probe.
+func vDialUDP(addr string) (*net.UDPConn, error) {
+	ra, err := net.ResolveUDPAddr("udp", addr)
+	if err != nil {
+		return nil, err
+	}
+	for i := 0; i < 200; i++ {
+		vNextPort++
+		if vNextPort > 60000 {
+			vNextPort = 33000
+		}
+		c, e := net.DialUDP("udp", &net.UDPAddr{IP: net.ParseIP("127.0.0.1"), Port: vNextPort}, ra)
+		if e == nil {
+			return c, nil
+		}
+		err = e
+	}
+	return nil, err
+}
+
 // probeTCP: returns listening, authenticated id number (0 = not authenticated), status
 func (h *vHarness) probeTCP(m *vMetrics, addr string, hello []byte) (bool, int, string, error) {
 	c, err := vDial(addr)
@@ -281,7 +302,7 @@ func (h *vHarness) probeTCP(m *vMetrics, addr string, hello []byte) (bool, int, 
 
 func (h *vHarness) probeUDP(m *vMetrics, addr string, k vKey) (int, error) {
 	key, _ := shadowsocks.NewEncryptionKey(k.cipher, k.secret)
-	c, err := net.Dial("udp", addr)
+	c, err := vDialUDP(addr)
 	if err != nil {
 		return 0, err
 	}
